@@ -23,13 +23,14 @@ structure RSt where
   cur : List Sample := []             -- samples waiting for the current segment
   seq : Nat := 1                      -- currOutSeqNr
   time : Nat := 0                     -- decode time of the next sample
+  first : Bool := true                -- no sample seen yet (`nr > 0` is false)
 
 /-- one iteration of the loop over `inSamples` -/
 def rstep (chunkDur : Nat) (st : RSt) (s : Sample) : RSt :=
   let pts : Int := (st.time : Int) + s.cto
-  if pts ≥ ((chunkDur * st.seq : Nat) : Int) ∧ s.sync then
-    { done := st.done ++ [st.cur], cur := [s], seq := st.seq + 1, time := st.time + s.dur }
-  else { st with cur := st.cur ++ [s], time := st.time + s.dur }
+  if ¬ st.first ∧ pts ≥ ((chunkDur * st.seq : Nat) : Int) ∧ s.sync then
+    { done := st.done ++ [st.cur], cur := [s], seq := st.seq + 1, time := st.time + s.dur, first := false }
+  else { st with cur := st.cur ++ [s], time := st.time + s.dur, first := false }
 
 /-- `Resegment`: the sample groups of the output segments, in order (`t0` = decode time of the first sample) -/
 def resegment (chunkDur t0 : Nat) (samples : List Sample) : List (List Sample) :=
